@@ -295,6 +295,33 @@ fn main() {
             let _ = out.flush();
             continue;
         }
+        if entry.starts_with("timecap_") {
+            // C20 confirmation for families whose work depends on the NUMBER of header lines: like time_, but with a header array of 4096
+            // slots (allocated once, outside the timed region) and no formatting of the result
+            let e2 = entry[8..].to_string();
+            let data = unhex(if p.len() > 3 { p[3] } else { "" });
+            let reps = cap.max(1);
+            let c = cfg(flags);
+            let mut hdrs = vec![httparse::EMPTY_HEADER; 4096];
+            let mut samples = Vec::new();
+            for _ in 0..5 {
+                let t0 = std::time::Instant::now();
+                for _ in 0..reps {
+                    let buf: &[u8] = &data;
+                    let ok = match e2.as_str() {
+                        "headers" => httparse::parse_headers(buf, &mut hdrs).is_ok(),
+                        e if e.starts_with("req") => { let mut r = Request::new(&mut hdrs); c.parse_request(&mut r, buf).is_ok() }
+                        _ => { let mut r = Response::new(&mut hdrs); c.parse_response(&mut r, buf).is_ok() }
+                    };
+                    std::hint::black_box(ok);
+                }
+                samples.push(t0.elapsed().as_nanos() as u64);
+            }
+            samples.sort();
+            let _ = writeln!(out, "{{\"impl\":{{\"status\":\"T\",\"n\":0,\"ns\":{}}},\"ref\":{{}}}}", samples[2]);
+            let _ = out.flush();
+            continue;
+        }
         if entry.starts_with("time_") {
             // C20 confirmation: wall time of `cap` repetitions of the parse (median of 5 batches), in nanoseconds
             let e2 = entry[5..].to_string();
